@@ -102,7 +102,7 @@ def _coqdep():
     return deps
 
 
-def coq_build(targets=None, timeout=1500, jobs=16):
+def coq_build(targets=None, timeout=1500, jobs=16, per_file=1200):
     """Full .vo build (never -vos) of the given targets (paths relative to coq/, default everything) and what they
     depend on, file by file with coqc in dependency order.  A lock per theory directory lets several builders
     work on different properties at once.  Returns (ok, log)."""
@@ -142,7 +142,7 @@ def coq_build(targets=None, timeout=1500, jobs=16):
                 for dd in deps.get(vo, []))
             if not stale:
                 continue
-            left = max(10, int(t_end - time.time()))
+            left = min(per_file, max(10, int(t_end - time.time())))
             r = subprocess.run(["timeout", str(left), "coqc", "-q", "-w", WARN, "-Q", "theories", "Verif", vo[:-1]],
                                cwd=COQ, stdout=subprocess.PIPE, stderr=subprocess.STDOUT, text=True, preexec_fn=_limits)
             log.append("COQC %s -> %d" % (vo[:-1], r.returncode))
